@@ -21,7 +21,7 @@ def showContent : Option Content → String
 def parseContent (t : String) : Option (Option Content) :=
   if t = "-" then some none
   else if t = "e" then some (some (.cut 0 0))
-  else if t = "j" then some (some .junk)
+  else if t = "j" || t = "J" then some (some .junk)
   else if t.startsWith "w" then (t.drop 1).toNat?.map (fun v => some (.whole v))
   else if t.startsWith "c" then
     match (t.drop 1).toString.splitOn "." with
